@@ -7,14 +7,16 @@ m1ym2 == Dec({"y", "m2"}, FALSE, FALSE)
 m1yi == Dec({"y"}, TRUE, FALSE)
 m1xq == Dec({"x"}, FALSE, TRUE)
 m1xb == Dec({"x", "x:bounds"}, FALSE, FALSE)
+m1none == Dec({}, FALSE, FALSE)       \* @param.depends(watch=True) naming nothing: depends on nothing (not "on everything")
+m1nonei == Dec({}, TRUE, FALSE)
 m2x == Dec({"x"}, FALSE, FALSE)
 m2y == Dec({"y"}, FALSE, FALSE)
 m2b == Dec({"x:bounds"}, TRUE, FALSE)
 m1xs == DecS({"x"}, FALSE)
 m1xsi == DecS({"x"}, TRUE)
-M1T == {m1x, m1xy, m1m2, m1ym2, m1yi, m1xq, m1xb, m1xs, m1xsi}
+M1T == {m1x, m1xy, m1m2, m1ym2, m1yi, m1xq, m1xb, m1xs, m1xsi, m1none, m1nonei}
 M2T == {m2x, m2y, m2b}
-M1Q == {m1x, m1m2, m1yi, m1xb, m1xsi}
+M1Q == {m1x, m1m2, m1yi, m1xb, m1xsi, m1none}
 M2Q == {m2x, m2y}
 M1QD == {m1x, m1m2, m1xsi}
 RootM1T == {m1x, m1m2, m1ym2, m1yi, m1xsi}
